@@ -941,6 +941,7 @@ func runC14(c *Ctx) {
 	// 0. corpus: minimised witnesses of the repaired defects and of the recorded finding (label scripts)
 	c14Corpus(c)
 	c14InfoJobs(c) // Jobs whose completion runs type-specific result processing (c14_s3.go)
+	c14ViaEvents(c) // results through receive() and the event thread (c14_s3_ev.go)
 
 	// 1. exhaustive small interleavings: one Job, {handle, Cancel} / {handle, handle} / {Cancel, Cancel,
 	//    handle} / {handle, Wait} / {handle, IsDone} / {handle, accept} / {handle, frag}, every order of the atomic actions
